@@ -112,7 +112,7 @@ func (f *Frame) jsonUnmarshal(x ssa.Value, cc *ssa.CallCommon, args []*Val, st *
 		cn, cs := c.cellHeap(T)
 		oldRef := sel(e.heapGet(st, cn, cs), ptr.T)
 		hn, hsrt, vn, vsrt := c.mapHeaps(T)
-		f.frameObl(oldRef, "json.Unmarshal into map", f.curInstr)
+		f.frameObl(oldRef, "json.Unmarshal into map", f.curInstr, hn)
 		h := e.heapGet(st, hn, hsrt)
 		// decoding into an empty map: the contents are a function of the text
 		kf, vf := jsonMapFuns(c, T)
